@@ -108,6 +108,21 @@ def gen_problem(g, rng, M, cv):
     finally:
         g.vars, g.lens = saved
 
+def nested_desc(rng):
+    """directed family: an objective max(f1, f2, ...) whose pieces are themselves sums of several convex terms (each such piece needs its own
+    auxiliary variables and inequalities in the epigraph conversion), in every order, next to plain pieces and constants"""
+    L = rng.choice([1, 1, 2])
+    def cst(): return 'const ' + ','.join(str(rng.randint(-3, 3)) for _ in range(L))
+    def absaff(): return 'abs sub var 0 ' + cst()
+    def nested(): return 'add %s %s' % (absaff(), rng.choice([absaff(), 'smul 2 ' + absaff(), 'maxv add var 0 ' + cst() if L > 1 else absaff()]))
+    def plain(): return rng.choice(['smul %d %s' % (rng.randint(1, 3), absaff()), 'const %d' % rng.randint(0, 4), 'sub var 0 ' + cst(), absaff()])
+    pieces = [nested()] + [rng.choice([nested, plain, plain])() for _ in range(rng.randint(1, 2))]
+    rng.shuffle(pieces)
+    obj = pieces[0]
+    for q in pieces[1:]: obj = 'max2 %s %s' % (obj, q)
+    if L > 1: obj = rng.choice(['sum ', 'maxv ']) + obj
+    return {'lens': [L], 'obj': obj, 'cons': [['ineq', 'sub abs var 0 const %d' % rng.randint(3, 6)]]}
+
 def cvx_zero(n):
     from cvxopt import matrix
     return matrix(0.0, (n, 1))
@@ -248,7 +263,10 @@ def correspond(ctx):
         p = None
         if it < 0:
             p = prob_from_desc(corpus[it + len(corpus)], M, cvxopt)      # minimised past failures run first
-        for _ in range(10 if it >= 0 else 0):
+        if it >= 0 and it % 6 == 4:
+            try: p = prob_from_desc(nested_desc(rng), M, cvxopt); bump('directed:nested-pieces')
+            except (TypeError, ValueError, IndexError, NotImplementedError): p = None
+        for _ in range(10 if it >= 0 and p is None else 0):
             try: p = gen_problem(g, rng, M, cvxopt)
             except (TypeError, ValueError, IndexError, NotImplementedError): p = None
             if p is not None: break
@@ -276,7 +294,7 @@ def correspond(ctx):
     ctx.cov.update({'evaluations': stat.get('checked', 0), 'distinct_nontrivial': len(probs),
                     'rule': '%d generated problems: 1-3 variables (lengths 1..3), convex piecewise-linear objective (nested max/abs/sum/min of affine, '
                             'dense and sparse coefficients), 0-3 piecewise-linear inequality constraints f <= g / g >= f, optional affine equality, '
-                            '85%% with box constraints (abs(x) <= B or two-sided); each solved with (dense, conelp), (sparse, conelp), (dense, glpk) and '
+                            '85%% with box constraints (abs(x) <= B or two-sided); every sixth problem a directed objective max(f1, f2, ..) whose pieces are sums of several convex terms, in every order; each solved with (dense, conelp), (sparse, conelp), (dense, glpk) and '
                             'compared with the reference program emitted by the proved translation and solved by GLPK' % n,
                     'outcomes': stat, 'protocol_lines_compared': len(lines)})
     ctx.samples += [p.obj_t for p in probs[:3]]
